@@ -337,7 +337,7 @@ func cmdCheck(args []string) int {
 				ob.Result.Seconds += firstTry[ob].Seconds
 			}
 		}
-		// a handful still undecided: one last attempt, one at a time, with four times the budget (an undecided
+		// a handful (at most three) still undecided: one last attempt, two at a time, with three times the budget (an undecided
 		// obligation has to be reported as a violation, so the time is spent only where the alternative is an alarm)
 		var last []*Obligation
 		for _, ob := range again {
@@ -345,12 +345,12 @@ func cmdCheck(args []string) int {
 				last = append(last, ob)
 			}
 		}
-		if len(last) > 0 && len(last) <= 4 {
+		if len(last) > 0 && len(last) <= 3 {
 			prev := map[*Obligation]*SolveResult{}
 			for _, ob := range last {
 				prev[ob] = ob.Result
 			}
-			SolveAll(last, 4*timeout, 1, false)
+			SolveAll(last, 3*timeout, 2, false)
 			for _, ob := range last {
 				if ob.Result.Status == "timeout" || ob.Result.Status == "unknown" {
 					ob.Result.Seconds += prev[ob].Seconds
